@@ -256,8 +256,12 @@ impl CodeFormatter {
                     .spc_if_next()
                     .fmt(failure_message);
             }
-            Token::Braces { block, .. } | Token::Config(block) => {
-                self.format_block(block);
+            Token::Braces { block, .. } => {
+                // The trivia in front of a bare block is the statement's leading trivia, which format_line already emitted
+                self.format_block(block, false);
+            }
+            Token::Config(block) => {
+                self.format_block(block, true);
             }
             Token::ConfigPair { key, eq, value } => {
                 self.push(&key.data)
@@ -454,10 +458,36 @@ impl CodeFormatter {
         }
     }
 
-    fn format_block(&mut self, block: &Block) {
+    fn format_block(&mut self, block: &Block, format_lparen_trivia: bool) {
+        // Comments between the block's header and its opening brace are kept (a line comment ends its line, so the
+        // brace then has to start a new one). Newlines in that gap are not: the brace position is an option.
+        let mut on_new_line = false;
+        if format_lparen_trivia {
+            if let Some(trivia) = block.lparen.trivia.as_ref() {
+                for triv in &trivia.data {
+                    match triv {
+                        Trivia::CStyle(comment) => {
+                            self.push_type(ChunkType::Comment, comment);
+                            on_new_line = false;
+                        }
+                        Trivia::CppStyle(comment) => {
+                            self.push_type(ChunkType::Comment, comment).push("\n");
+                            on_new_line = true;
+                        }
+                        Trivia::Whitespace(_) | Trivia::NewLine => (),
+                    }
+                }
+            }
+        }
+
         match self.options.braces.position {
             BracePosition::SameLine => self.push(&block.lparen.data).push("\n"),
-            BracePosition::NewLine => self.push("\n").push(&block.lparen.data).push("\n"),
+            BracePosition::NewLine => {
+                if !on_new_line {
+                    self.push("\n");
+                }
+                self.push(&block.lparen.data).push("\n")
+            }
         };
 
         // Since we want to deal with tokens and the trivia _after_ the token,
@@ -601,7 +631,7 @@ basic_format!(&TextEncoding);
 
 impl Formattable for &Block {
     fn format(&self, formatter: &mut CodeFormatter) {
-        formatter.format_block(self);
+        formatter.format_block(self, true);
     }
 }
 
